@@ -721,3 +721,54 @@ Proof.
   destruct (pre_open_inside _ _ E) as (a & r & Ia & F & S).
   destruct (H a Ia) as [A|A]; [exact (A F)|exact (A r S)].
 Qed.
+
+(* ---------- bare backing transport ---------- *)
+Lemma join_split s : join_slash (split_slash s) = s.
+Proof.
+  induction s as [|c r IH]; [reflexivity|]. cbn [split_slash].
+  destruct (split_cons r) as (g & gs & E). rewrite E in *.
+  destruct (c =? SLASH) eqn:Ec.
+  - apply N.eqb_eq in Ec. subst c. change (join_slash ([] :: g :: gs)) with ([] ++ [SLASH] ++ join_slash (g :: gs)).
+    rewrite IH. reflexivity.
+  - destruct gs as [|g2 gs]; [unfold join_slash in *; simpl in *; rewrite IH; reflexivity|].
+    change (join_slash ((c :: g) :: g2 :: gs)) with ((c :: g) ++ [SLASH] ++ join_slash (g2 :: gs)).
+    change (join_slash (g :: g2 :: gs)) with (g ++ [SLASH] ++ join_slash (g2 :: gs)) in IH.
+    simpl. simpl in IH. rewrite IH. reflexivity.
+Qed.
+
+Theorem bare_inside_root vfs rcp p segs :
+  wf_bytes p = true -> resolve_bare vfs rcp p = Ok segs ->
+  ~ In dotdot segs /\ stays_inside segs = true.
+Proof.
+  intros W. unfold resolve_bare.
+  assert (K : forall rel, Forall (fun g => segok g = true) (split_slash rel) ->
+              local_open rel = Ok segs -> ~ In dotdot segs /\ stays_inside segs = true).
+  { intros rel F E. rewrite <- (join_split rel) in E.
+    pose proof (local_open_ok (fun x => x) [] _ _ F E) as N. split; [exact N|apply no_dotdot_inside, N]. }
+  destruct vfs.
+  - unfold translate_vfs. destruct (negb (utf8_valid p)); [discriminate|].
+    unfold unescape. destruct (non_ascii p); [discriminate|].
+    destruct (utf8_valid (pct_decode p)).
+    + destruct (translate_plain rcp (pct_decode p)) as [rel|e] eqn:T; [|discriminate].
+      apply K. eapply translate_plain_ok; [apply decode_wf, W|exact T].
+    + destruct (translate_plain rcp p) as [rel|e] eqn:T; [|discriminate].
+      apply K. eapply translate_plain_ok; [exact W|exact T].
+  - destruct (translate_plain rcp p) as [rel|e] eqn:T; [|discriminate].
+    apply K. eapply translate_plain_ok; [exact W|exact T].
+Qed.
+
+(* ---------- the jail is per thread ---------- *)
+Lemma jail_frame ops : forall s t roots u,
+  jget t s = Some roots ->
+  (forall o, In o ops -> jop_thread o <> t) ->
+  exists l, jail_run s (ops ++ [JOpen t u]) = l ++ [pre_open_hook (Some roots) u].
+Proof.
+  induction ops as [|o ops IH]; intros s t roots u G H.
+  - exists []. simpl. rewrite G. reflexivity.
+  - assert (Ho : jop_thread o <> t) by (apply H; left; reflexivity).
+    assert (H' : forall o', In o' ops -> jop_thread o' <> t) by (intros o' I; apply H; right; exact I).
+    destruct o as [t' r|t'|t' u']; simpl in Ho; cbn [app jail_run].
+    + apply IH; [|exact H']. cbn [jget]. destruct (t =? t') eqn:E; [apply N.eqb_eq in E; congruence|exact G].
+    + apply IH; [|exact H']. cbn [jget]. destruct (t =? t') eqn:E; [apply N.eqb_eq in E; congruence|exact G].
+    + destruct (IH s t roots u G H') as (l & E). rewrite E. eexists (_ :: l). reflexivity.
+Qed.
